@@ -67,7 +67,7 @@ import "container/heap"
 //@   requires queueIdx() && heapOrd() && x != nil && !member(x)
 //@   modifies tssQ, tssQ[:], every(x.qidx)
 //@   allocates
-//@   ensures len(tssQ) == old(len(tssQ))+1 && queueIdx() && heapOrd() && member(x)
+//@   ensures len(tssQ) == old(len(tssQ))+1 && queueIdx() && heapOrd() && member(x) && (regionof(tssQ) == old(regionof(tssQ)) || fresh(tssQ))
 //@   ensures all(p *tssItem, old(member(p)) ==> member(p))
 //@   ensures all(p *tssItem, member(p) ==> old(member(p)) || p == x)
 
@@ -75,7 +75,7 @@ import "container/heap"
 //@   trusted
 //@   requires queueIdx() && heapOrd() && len(tssQ) >= 1
 //@   modifies tssQ, tssQ[:], every(tssQ[0].qidx)
-//@   ensures len(tssQ) == old(len(tssQ))-1 && queueIdx() && heapOrd() && result == old(tssQ[0])
+//@   ensures len(tssQ) == old(len(tssQ))-1 && queueIdx() && heapOrd() && result == old(tssQ[0]) && regionof(tssQ) == old(regionof(tssQ))
 //@   ensures all(p *tssItem, old(member(p)) && p != result ==> member(p))
 //@   ensures all(p *tssItem, member(p) ==> old(member(p)) && p != result)
 
@@ -90,7 +90,7 @@ import "container/heap"
 //@   trusted
 //@   requires queueIdx() && heapOrd() && 0 <= i && i < len(tssQ)
 //@   modifies tssQ, tssQ[:], every(tssQ[0].qidx)
-//@   ensures len(tssQ) == old(len(tssQ))-1 && queueIdx() && heapOrd() && result == old(tssQ[i])
+//@   ensures len(tssQ) == old(len(tssQ))-1 && queueIdx() && heapOrd() && result == old(tssQ[i]) && regionof(tssQ) == old(regionof(tssQ))
 //@   ensures all(p *tssItem, old(member(p)) && p != result ==> member(p))
 //@   ensures all(p *tssItem, member(p) ==> old(member(p)) && p != result)
 
@@ -105,11 +105,12 @@ func verifHeapRemove(i int) *tssItem { return heap.Remove(&tssQ, i).(*tssItem) }
 //@ pred evicts(c, t) = (!old(inmap(tss, c)) && old(len(tss)) == tssCap && !old(tssQ[0].qval).After(ntp.Time64FromTime(t)))
 
 //@ func handleRequest
-//@   noframe
 //@   split 0 1 2 4 5 6 7
+//@   modifies *rxt, *txt, *resp, tssMu, tss, tssQ, tssQ[:], every(tssQ[0].qidx), every(tssQ[0].qval), every(tssQ[0].len), every(tssQ[0].buf)
+//@   allocates
 //@   requires req != nil && rxt != nil && txt != nil && resp != nil && rxt != txt && req != resp
 //@   requires 0 <= rxt.Unix() && rxt.Unix() <= 8589934592
-//@   requires tssOK()
+//@   lockinv tssOK()
 //@   entry rxt0 := *rxt
 //@   loop 0 invariant tssi != nil && tssi == tss[clientID] && inmap(tss, clientID)
 //@   loop 0 invariant rxt64 == ntp.Time64FromTime(*rxt) && txt64 == ntp.Time64FromTime(*txt)
@@ -120,7 +121,6 @@ func verifHeapRemove(i int) *tssItem { return heap.Remove(&tssQ, i).(*tssItem) }
 //@   loop 0.0 invariant max != -1 ==> !tssi.qval.Before(tssi.buf[max].rxt)
 //@   loop 0.0 invariant forall(j, 0, i, tssi.buf[j].rxt != rxt64 && !tssi.buf[max].rxt.Before(tssi.buf[j].rxt))
 //@   loop 0.0 invariant forall(j, 0, i, tssi.buf[j].rxt == req.OriginTime ==> o == j)
-//@   ensures ok: tssOK()
 //@   ensures header: resp.Version() == 4 && resp.Mode() == 4 && resp.Stratum == 1
 //@   ensures rx: resp.ReceiveTime == ntp.Time64FromTime(*rxt)
 //@   ensures rxunique: old(inmap(tss, clientID)) ==> forall(j, 0, old(tss[clientID].len), old(tss[clientID].buf[j].rxt) != resp.ReceiveTime)
@@ -138,16 +138,15 @@ func verifHeapRemove(i int) *tssItem { return heap.Remove(&tssQ, i).(*tssItem) }
 //@ pred norecord(c, t, u) = (old(inmap(tss, c)) && exists(j, 0, old(tss[c].len), old(tss[c].buf[j].rxt) == t && old(tss[c].buf[j].txt) == u))
 
 //@ func updateTXTimestamp
-//@   noframe
 //@   split 1 2 3 4 5
+//@   modifies *txt, tssMu, tss, tssQ, tssQ[:], every(tssQ[0].qidx), every(tssQ[0].qval), every(tssQ[0].len), every(tssQ[0].buf)
 //@   requires txt != nil
 //@   requires -1099511627776 <= rxt.Unix() && rxt.Unix() <= 1099511627776
-//@   requires tssOK()
+//@   lockinv tssOK()
 //@   loop 0 invariant 0 <= i && i <= tssi.len
 //@   loop 0 invariant (x == -1 || (0 <= x && x < i && tssi.buf[x].rxt == rxt64)) && forall(j, 0, i, tssi.buf[j].rxt == rxt64 ==> x == j)
 //@   loop 0 invariant (max0 == -1) == (i == 0) && (max0 != -1 ==> 0 <= max0 && max0 < i) && forall(j, 0, i, !tssi.buf[max0].rxt.Before(tssi.buf[j].rxt))
 //@   loop 0 invariant (max1 == -1) == (i <= 1) && (max1 != -1 ==> 0 <= max1 && max1 < i && max1 != max0) && forall(j, 0, i, j != max0 ==> !tssi.buf[max1].rxt.Before(tssi.buf[j].rxt))
-//@   ensures ok: tssOK()
 //@   ensures later: rxt.Before(*txt)
 //@   ensures untouched: !found(clientID, ntp.Time64FromTime(rxt)) ==> all(k string, inmap(tss, k) == old(inmap(tss, k)) && tss[k] == old(tss[k])) && all(p *tssItem, p.len == old(p.len) && p.qval == old(p.qval) && forall(j, 0, 8, p.buf[j] == old(p.buf[j])))
 //@   ensures recorded: found(clientID, ntp.Time64FromTime(rxt)) && !norecord(clientID, ntp.Time64FromTime(rxt), ntp.Time64FromTime(*txt)) ==> inmap(tss, clientID) && tss[clientID] == old(tss[clientID]) && tss[clientID].len == old(tss[clientID].len) && forall(j, 0, tss[clientID].len, tss[clientID].buf[j].rxt == old(tss[clientID].buf[j].rxt) && (tss[clientID].buf[j].rxt == ntp.Time64FromTime(rxt) ==> tss[clientID].buf[j].txt == ntp.Time64FromTime(*txt)) && (tss[clientID].buf[j].rxt != ntp.Time64FromTime(rxt) ==> tss[clientID].buf[j].txt == old(tss[clientID].buf[j].txt)))
